@@ -95,17 +95,17 @@ func c04Harness(cfg *Cfg) func(x *mc.Exec) {
 			switch dm {
 			case 0:
 				src.Chunk = 1
-				src.Pieces = []int{at - 40}
+				src.ChunkAfter = at - 40
 				desc += " delivery=bytewise-from-" + fmt.Sprint(at-40)
 			case 1:
 				src.Chunk = 1
-				src.Pieces = []int{at - 40}
+				src.ChunkAfter = at - 40
 				source = bufio.NewReaderSize(src, 16)
 				desc += " delivery=bytewise-through-bufio16"
 			case 2:
 				k := at - 8 + x.Choose(80, "split")
-				src.Pieces = []int{k}
-				desc += fmt.Sprintf(" delivery=two-pieces-split-at-%d", k)
+				src.Bounds = []int{k}
+				desc += fmt.Sprintf(" delivery=a-delivery-ends-at-%d", k)
 			}
 			var r io.Reader
 			if _, isBuf := source.(*bufio.Reader); isBuf {
